@@ -24,7 +24,7 @@ from fractions import Fraction
 import numpy as np
 
 import common
-from common import zlit, blit
+from common import zlit, blit, zlist
 
 warnings.simplefilter("ignore")
 
@@ -784,7 +784,7 @@ def result_lit(v, kind):
     return zlit(int(v))
 
 
-COQ_HDR = common.CASES_HEADER + "From J2O Require Import Tensor Batch Graph Lowering LoweringSem OnnxInt Kernels Lift LiftProg LiftReduce LiftCall LiftStruct.\n"
+COQ_HDR = common.CASES_HEADER + "From J2O Require Import Tensor Batch Graph Lowering LoweringSem OnnxInt Kernels Lift LiftProg LiftReduce LiftCall LiftStruct LiftDyn.\n"
 
 
 def eq_term(kind, a, b):
@@ -1594,6 +1594,9 @@ def struct_corpus(tier):
     add("lax_argmin", "lax.argmin(x, 0, int32) + y", lambda x, y: lax.argmin(x, 0, jnp.int32) + y, [(4, 3), (3,)], vals=[i32.min, 0, i32.max])
     add("argmax_flat", "argmax(x) (all axes) * 2", lambda x: jnp.argmax(x) * 2, [(2, 3)], vals=[-5, 9])
     add("argmin_u8", "argmin(x, axis=0) [uint8]", lambda x: jnp.argmin(x, axis=0), [(3, 4)], "uint8", vals=[0, 1, 255])
+    add("clamp_t", "lax.clamp(x_lo: int32[], y, z_hi: int32[2,3])", lambda x, y, z: lax.clamp(x, y, z), [(), (2, 3), (2, 3)])
+    add("select3", "lax.select_n(clip(x, 0, 2), y, y * 2, z)", lambda x, y, z: lax.select_n(jnp.clip(x, 0, 2), y, y * 2, z),
+        [(2, 3), (2, 3), (2, 3)])
     add("arange", "ravel(x) + arange(6)", lambda x: jnp.ravel(x) + jnp.arange(6, dtype=jnp.int32), [(2, 3)])
     add("iota2", "x * broadcasted_iota((2,3), 0) + iota(3)",
         lambda x: x * lax.broadcasted_iota(jnp.int32, (2, 3), 0) + lax.iota(jnp.int32, 3), [(2, 3)])
@@ -1887,6 +1890,11 @@ def sprog_model(sp, nested=False):
                 else:
                     raise Unrecognised(f"convert_element_type {src} -> {new}")
                 emit(key, f"GElem \"{key}\"", [operand(ins[0])], o)
+            elif p == "select_n" and len(ins) == 4:
+                dts = [dtn(a[2]) for a in ins]
+                if dts[0] not in ("int32", "int64") or len(set(dts[1:])) != 1 or dts[1] not in INT_DTYPES:
+                    raise Unrecognised(f"select_n on {dts}")
+                emit("select_n3", "GSelect3", [operand(a) for a in ins], o)
             elif p in STABLE_PRIMS:
                 dts = [dtn(a[2]) for a in ins]
                 if p == "integer_pow":
@@ -2207,14 +2215,17 @@ def sprog_jobs(sp, jobs, ort_outs):
 #   - boundary rows (min, max, ...): |onnxruntime - JAX| <= 3 * ulp(3 * max|x|), a bound that holds for every summation
 #     order of three float32 terms; it still separates a missing Cast, an integer division or a wrong axis from a correct model.
 # What is NOT claimed: bit equality, nor any bound for longer reductions.
+# jnp.cumsum of integers (lax.cumsum) IS exact (running wrapped sums; LiftReduce.cumsum_correct, and cumsum_via32_correct for the
+# Cast(int32) -> CumSum -> Cast lowering of 8- / 16-bit integers): the same rows, compared bit for bit; scalar-level theorem only
+# (a scan is not one of the tensor-level kernels of LiftStruct).
 class XProg:
-    def __init__(self, pid, dt, axis):
-        self.id, self.dt, self.axis = pid, dt, axis
+    def __init__(self, pid, dt, axis, kind="mean"):
+        self.id, self.dt, self.axis, self.kind = pid, dt, axis, kind
         self.jax = self.model = self.err = self.ort = self.type_errors = None
 
     def fn(self, x):
         import jax.numpy as jnp
-        return jnp.mean(x, axis=self.axis)
+        return jnp.cumsum(x, axis=self.axis) if self.kind == "cumsum" else jnp.mean(x, axis=self.axis)
 
 
 def explored_programs(tier):
@@ -2227,18 +2238,19 @@ def explored_programs(tier):
         bv = int_values(dt, small=True)
         bound = [(a_, bv[(3 * i_ + 1) % len(bv)], bv[(5 * i_ + 2) % len(bv)]) for i_, a_ in enumerate(bv)]
         for axis in ((1,) if tier == "quick" else (1, 0)):
-            xp = XProg(f"jnp_mean_axis{axis}", dt, axis)
-            mat = np.array(exact + bound, dtype=dt)
-            xp.n_exact = len(exact)
-            xp.x = mat if axis == 1 else np.ascontiguousarray(mat.T)
-            P.append(xp)
+            for kind in ("mean", "cumsum"):
+                xp = XProg(f"jnp_{kind}_axis{axis}", dt, axis, kind)
+                mat = np.array(exact + bound, dtype=dt)
+                xp.n_exact = len(exact)
+                xp.x = mat if axis == 1 else np.ascontiguousarray(mat.T)
+                P.append(xp)
     return P
 
 
 def explored_judge(ctx, xprogs):
     n_ok = pts = 0
     for xp in xprogs:
-        desc = f"jnp.mean(x, axis={xp.axis}) with x:{xp.dt}{list(xp.x.shape)}"
+        desc = f"jnp.{xp.kind}(x, axis={xp.axis}) with x:{xp.dt}{list(xp.x.shape)}"
         if xp.model is None or xp.jax is None:
             ctx.oblige(f"explored:{xp.id}:{xp.dt}", False, "tie", f"{desc}: {xp.err}")
             continue
@@ -2265,6 +2277,20 @@ def explored_judge(ctx, xprogs):
                         f"nodes {structure(xp.model)}",
                         {"kind": "explored", "id": xp.id, "dtype": xp.dt, "axis": xp.axis, "rows": rows[:2].tolist()})
             continue
+        if xp.kind == "cumsum":
+            jr, gr = (xp.jax, got) if xp.axis == 1 else (xp.jax.T, got.T)
+            badr = np.nonzero((jr != gr).any(axis=1))[0]
+            pts += len(rows)
+            if len(badr):
+                i = int(badr[0])
+                ctx.violate(f"explored:{xp.id}:{xp.dt}:value-mismatch",
+                            f"{desc}: row {rows[i].tolist()}: exported model in onnxruntime gives {gr[i].tolist()}, eager JAX gives "
+                            f"{jr[i].tolist()} ({len(badr)} of {len(rows)} rows differ); nodes {structure(xp.model)}",
+                            {"kind": "explored", "id": xp.id, "dtype": xp.dt, "axis": xp.axis, "rows": [rows[i].tolist()],
+                             "onnxruntime": gr[i].tolist(), "jax": jr[i].tolist()})
+            else:
+                n_ok += 1
+            continue
         j64, g64 = xp.jax.astype(np.float64), got.astype(np.float64)
         mx = np.abs(rows.astype(np.float64)).max(axis=1)
         tol = np.where(np.arange(len(rows)) < xp.n_exact, np.spacing(np.abs(xp.jax)).astype(np.float64),
@@ -2281,10 +2307,97 @@ def explored_judge(ctx, xprogs):
         else:
             n_ok += 1
     ctx.coverage.update({"c01k_explored_mean_programs": len(xprogs), "c01k_explored_mean_within_tolerance": n_ok,
+                         "c01k_cumsum_programs_bit_exact": len([xp for xp in xprogs if xp.kind == "cumsum"]),
                          "c01k_explored_mean_rows": pts,
                          "c01k_explored_mean_claim": "valid ONNX, JAX's result type, onnxruntime within 1 ulp of JAX on rows with an "
                                                      "order-independent exact float32 sum, within 3 ulp(3 max|x|) on boundary rows; "
                                                      "no exactness theorem (float32 mean)"})
+
+
+# ------------------------------------------------------------------------------------------------ (h) dynamic_slice on n-D operands
+# lax.dynamic_slice(x, (s[0], ..., s[n-1]), sizes) for every start vector of a boundary grid (negative, in range, past the end,
+# INT_MIN / INT_MAX): LiftDyn.jax_dynamic_slice_t against eager JAX and LiftDyn.onnx_dynamic_slice_t (the per-axis composition
+# of the exported normalise / clamp / Slice graph) against onnxruntime on the real export, both evaluated inside Coq;
+# onnxruntime against JAX bit for bit.  LiftDyn.dynamic_slice_nd_correct is the theorem between the two functions.
+class DProg:
+    def __init__(self, pid, xshape, sizes):
+        self.id, self.xshape, self.sizes = pid, xshape, sizes
+        self.x = (np.arange(int(np.prod(xshape)), dtype=np.int32) * 7 - 11).reshape(xshape)
+        self.jax = self.model = self.err = self.ort = self.starts = None
+        self.j_job = self.o_job = None
+
+    def fn(self, x, st):
+        from jax import lax
+        return lax.dynamic_slice(x, tuple(st[k_] for k_ in range(len(self.sizes))), self.sizes)
+
+
+def dyn_programs(tier):
+    P = [DProg("ds2", (4, 5), (2, 3))]
+    if tier != "quick":
+        P += [DProg("ds3", (3, 4, 2), (2, 1, 2)), DProg("ds2_full", (3, 3), (3, 1))]
+    i32 = np.iinfo(np.int32)
+    for dp in P:
+        per_axis = []
+        for d_, sz in zip(dp.xshape, dp.sizes):
+            per_axis.append(sorted({i32.min, i32.min + 1, -d_ - 1, -d_, -d_ + 1, -1, 0, 1, d_ - sz - 1, d_ - sz, d_ - sz + 1, d_ - 1, d_, d_ + 1,
+                                    i32.max - 1, i32.max}))
+        if len(per_axis) == 2:
+            grid = [(a_, b_) for a_ in per_axis[0] for b_ in per_axis[1]]
+            if tier == "quick":
+                grid = grid[::3]
+        else:
+            n_ = max(len(v) for v in per_axis)
+            grid = [tuple(v[(i_ * (k_ + 1) + k_) % len(v)] for k_, v in enumerate(per_axis)) for i_ in range(3 * n_)]
+        dp.starts = np.array(grid, dtype=np.int32)
+    return P
+
+
+def dyn_jobs(dp, jobs):
+    def rows(outs):
+        return "; ".join("(" + zlist([int(v) for v in st]) + ", " + cten_lit(o_) + ")" for st, o_ in zip(dp.starts, outs))
+    sz = zlist(list(dp.sizes))
+    x = cten_lit(dp.x)
+    p = f"dp_{dp.id}_j"
+    dp.j_job = jobs.add(f"Definition {p}_rows : list (list Z * cten) := [{rows(dp.jax)}].\n"
+                        f"Eval vm_compute in bad_idx_ (fun c => cten_eqb (ds_eval (jax_dynamic_slice I32) {sz} (fst c) {x}) (snd c)) 0 {p}_rows.\n")
+    if dp.ort is not None and dp.ort[0] == "ran":
+        p = f"dp_{dp.id}_o"
+        dp.o_job = jobs.add(f"Definition {p}_rows : list (list Z * cten) := [{rows(dp.ort[1])}].\n"
+                            f"Eval vm_compute in bad_idx_ (fun c => cten_eqb (ds_eval (lowered_dynamic_slice I32) {sz} (fst c) {x}) (snd c)) 0 {p}_rows.\n")
+
+
+def dyn_judge(ctx, dprogs, results):
+    n_ok = pts = 0
+    for dp in dprogs:
+        desc = f"lax.dynamic_slice(x:int32{list(dp.xshape)}, s, {list(dp.sizes)})"
+        if dp.model is None or dp.jax is None or dp.j_job is None:
+            ctx.oblige(f"dynslice:{dp.id}", False, "tie", f"{desc}: {dp.err}")
+            continue
+        jb = results[dp.j_job]
+        ok = ctx.oblige(f"tieD2-dynslice:{dp.id}", jb == [], "tie",
+                        "" if jb == [] else f"{desc}: LiftDyn.jax_dynamic_slice_t differs from eager JAX at starts "
+                                            f"{[dp.starts[i_].tolist() for i_ in (jb or [])[:3]]}")
+        st, val = dp.ort
+        if st != "ran":
+            ctx.violate(f"dynslice:{dp.id}:onnxruntime-fails", f"{desc}: onnxruntime: {str(val)[:300]}; nodes {structure(dp.model)}",
+                        {"kind": "dynslice", "id": dp.id, "start": dp.starts[0].tolist()})
+            continue
+        ob = results[dp.o_job] if dp.o_job is not None else None
+        ok = ctx.oblige(f"tieD3-dynslice:{dp.id}", ob == [], "tie",
+                        "" if ob == [] else f"{desc}: LiftDyn.onnx_dynamic_slice_t differs from onnxruntime at starts "
+                                            f"{[dp.starts[i_].tolist() for i_ in (ob or [])[:3]]}") and ok
+        bad = [i_ for i_, (g_, j_) in enumerate(zip(val, dp.jax)) if g_.shape != j_.shape or g_.dtype != j_.dtype or not np.array_equal(g_, j_)]
+        pts += len(dp.starts)
+        if bad:
+            i_ = bad[0]
+            ctx.violate(f"dynslice:{dp.id}:value-mismatch",
+                        f"{desc}: start {dp.starts[i_].tolist()}: exported model in onnxruntime gives {val[i_].tolist()}, eager JAX gives "
+                        f"{dp.jax[i_].tolist()} ({len(bad)} of {len(dp.starts)} starts differ); nodes {structure(dp.model)}",
+                        {"kind": "dynslice", "id": dp.id, "start": dp.starts[i_].tolist(), "onnxruntime": val[i_].tolist(), "jax": dp.jax[i_].tolist()})
+        elif ok:
+            n_ok += 1
+    ctx.coverage.update({"c01k_dynamic_slice_nd_programs": len(dprogs), "c01k_dynamic_slice_nd_tied_and_equal": n_ok,
+                         "c01k_dynamic_slice_nd_start_vectors": pts})
 
 
 # ------------------------------------------------------------------------------------------------ inventory of jax.numpy plugins
@@ -2410,6 +2523,7 @@ def run(ctx):
     for pg in progs:
         pg.fills = prog_fills(pg, rng, 4 if tier == "quick" else 10)
     xprogs = explored_programs(tier)
+    dprogs = dyn_programs(tier)
     sprogs = struct_corpus(tier)
     for sp in sprogs:
         sp.fills = sprog_fills(sp, rng, sp.small + (3 if tier == "quick" else 8))
@@ -2435,6 +2549,13 @@ def run(ctx):
                 except Exception as e:  # noqa: BLE001
                     pg.err = f"eager JAX: {type(e).__name__}: {e}"[:300]
             if not flag:
+                for dp in dprogs:
+                    try:
+                        import jax.numpy as jnp
+                        xj = jnp.asarray(dp.x)
+                        dp.jax = [np.asarray(dp.fn(xj, jnp.asarray(st_))) for st_ in dp.starts]
+                    except Exception as e:  # noqa: BLE001
+                        dp.err = f"eager JAX: {type(e).__name__}: {e}"[:300]
                 for xp in xprogs:
                     try:
                         import jax.numpy as jnp
@@ -2475,6 +2596,15 @@ def run(ctx):
                 except Exception as e:  # noqa: BLE001
                     pg.err = f"export: {type(e).__name__}: {e}"[:300]
             if not flag:
+                for dp in dprogs:
+                    if dp.err:
+                        continue
+                    try:
+                        import jax as _jax
+                        from jax2onnx import to_onnx as _to_onnx
+                        dp.model = _to_onnx(dp.fn, [_jax.ShapeDtypeStruct(dp.xshape, np.int32), _jax.ShapeDtypeStruct((len(dp.sizes),), np.int32)])
+                    except Exception as e:  # noqa: BLE001
+                        dp.err = f"export: {type(e).__name__}: {e}"[:300]
                 for xp in xprogs:
                     if xp.err:
                         continue
@@ -2658,6 +2788,14 @@ def run(ctx):
     xrun = [xp for xp in xprogs if xp.model is not None and not xp.type_errors]
     for xp, r_ in zip(xrun, ort_child(ctx, [(xp.model.SerializeToString(), [xp.x], False) for xp in xrun], tag="ortx") if xrun else []):
         xp.ort = r_
+    drun = [dp for dp in dprogs if dp.model is not None and dp.jax is not None]
+    for dp, r_ in zip(drun, ort_child(ctx, [(dp.model.SerializeToString(), [dp.x, dp.starts], True) for dp in drun], tag="ortdyn") if drun else []):
+        dp.ort = r_
+    for dp in drun:
+        try:
+            dyn_jobs(dp, jobs)
+        except Exception as e:  # noqa: BLE001
+            dp.err = f"cannot render: {type(e).__name__}: {e}"[:300]
     T["programs"] = round(_time.time() - t_, 1)
     t_ = _time.time()
 
@@ -2852,39 +2990,40 @@ def run(ctx):
                          "model_dtype": sp.conv_dtype, "nodes": structure(sp.model)})
             sp.type_errors = sp.type_errors or ["result dtype"]          # a finding: not part of the tie denominators
             continue
-        if sp.real is None or sp.s_job is None:
-            ctx.oblige(f"sprog:{sp.id}", False, "tie", f"traced program {desc}: {sp.err}; nodes {structure(sp.model)}")
-            continue
-        if results[sp.s_job] is True:
-            n_sp_tied += 1
-        else:
-            ctx.oblige(f"tieS-sprogram:{sp.id}", False, "tie",
-                       f"traced program {desc}: the exported graph {structure(sp.model)} (read as {sp.real}) is not the graph the "
-                       f"model dispatcher emits for the equations {sp.keys}")
-        jb = results[sp.j_job]
-        if jb == []:
-            n_sp_jax += 1
-        else:
-            ctx.oblige(f"tieD2-sprogram:{sp.id}", False, "tie",
-                       f"traced program {desc}: LiftStruct.sp_jax differs from eager JAX on fills {jb} "
-                       f"(first: operands {[c.tolist() for c in sp.fills[jb[0]]] if jb else '?'}, JAX {sp.jax[jb[0]].tolist() if jb else '?'})")
         deviated = bool(node_op_dtypes(sp.model) & deviations)
-        if sp.nested is not None:
-            n_sp_nested += 1
-            okn = results[sp.ns_job] is True and results[sp.nj_job] == [] and (sp.no_job is None or results[sp.no_job] == [] or deviated)
-            n_sp_nested_ok += bool(okn)
-            if not okn:
-                ctx.oblige(f"tie-nested-sprogram:{sp.id}", False, "tie",
-                           f"traced program {desc} with its jit bodies kept as calls (LiftCall): graph tied {results[sp.ns_job]}, "
-                           f"JAX semantics differs on fills {results[sp.nj_job]}, ONNX semantics differs on fills "
-                           f"{results[sp.no_job] if sp.no_job is not None else '-'}; calls {sp.nested[3][:400]}")
-        if sp.o_job is not None:
-            ob = results[sp.o_job]
-            if ob == [] or (deviated and ob is not None and all(i_ >= sp.small for i_ in ob)):
-                n_sp_onnx += 1
+        if sp.real is None or sp.s_job is None:
+            # structure not recognised: fail closed, but still search for a concrete failing input below
+            ctx.oblige(f"sprog:{sp.id}", False, "tie", f"traced program {desc}: {sp.err}; nodes {structure(sp.model)}")
+        else:
+            if results[sp.s_job] is True:
+                n_sp_tied += 1
             else:
-                ctx.oblige(f"tieD3-sprogram:{sp.id}", False, "tie",
-                           f"traced program {desc}: LiftStruct.sp_onnx of the emitted graph differs from onnxruntime on fills {ob}")
+                ctx.oblige(f"tieS-sprogram:{sp.id}", False, "tie",
+                           f"traced program {desc}: the exported graph {structure(sp.model)} (read as {sp.real}) is not the graph the "
+                           f"model dispatcher emits for the equations {sp.keys}")
+            jb = results[sp.j_job]
+            if jb == []:
+                n_sp_jax += 1
+            else:
+                ctx.oblige(f"tieD2-sprogram:{sp.id}", False, "tie",
+                           f"traced program {desc}: LiftStruct.sp_jax differs from eager JAX on fills {jb} "
+                           f"(first: operands {[c.tolist() for c in sp.fills[jb[0]]] if jb else '?'}, JAX {sp.jax[jb[0]].tolist() if jb else '?'})")
+            if sp.nested is not None:
+                n_sp_nested += 1
+                okn = results[sp.ns_job] is True and results[sp.nj_job] == [] and (sp.no_job is None or results[sp.no_job] == [] or deviated)
+                n_sp_nested_ok += bool(okn)
+                if not okn:
+                    ctx.oblige(f"tie-nested-sprogram:{sp.id}", False, "tie",
+                               f"traced program {desc} with its jit bodies kept as calls (LiftCall): graph tied {results[sp.ns_job]}, "
+                               f"JAX semantics differs on fills {results[sp.nj_job]}, ONNX semantics differs on fills "
+                               f"{results[sp.no_job] if sp.no_job is not None else '-'}; calls {sp.nested[3][:400]}")
+            if sp.o_job is not None:
+                ob = results[sp.o_job]
+                if ob == [] or (deviated and ob is not None and all(i_ >= sp.small for i_ in ob)):
+                    n_sp_onnx += 1
+                else:
+                    ctx.oblige(f"tieD3-sprogram:{sp.id}", False, "tie",
+                               f"traced program {desc}: LiftStruct.sp_onnx of the emitted graph differs from onnxruntime on fills {ob}")
         bad = None
         for f_, ((st, val), cols, ref_) in enumerate(zip(sp.ort, sp.fills, sp.jax)):
             if st != "ran":
@@ -2917,6 +3056,7 @@ def run(ctx):
                          "c01k_traced_program_list": [sp.text for sp in sprogs],
                          "c01k_traced_program_equations": sorted({k_.split(":")[0].split("->")[0].split("@")[0] for sp in sprogs for k_ in (sp.keys or [])})})
     explored_judge(ctx, xprogs)
+    dyn_judge(ctx, dprogs, results)
     kernels_seen = sorted({v.k.name for v in live})
     ctx.coverage.update({
         "c01k_kernels": len(kernels_seen), "c01k_kernel_list": kernels_seen,
@@ -2981,7 +3121,7 @@ def _replay_explored(r):
     import jax
     import jax.numpy as jnp
     from jax2onnx import to_onnx
-    xp = XProg(r["id"], r["dtype"], r["axis"])
+    xp = XProg(r["id"], r["dtype"], r["axis"], "cumsum" if "cumsum" in r["id"] else "mean")
     rows = np.array(r["rows"], dtype=r["dtype"])
     x = rows if xp.axis == 1 else np.ascontiguousarray(rows.T)
     jx = np.asarray(xp.fn(jnp.asarray(x)))
@@ -2998,11 +3138,36 @@ def _replay_explored(r):
         print("onnxruntime:", str(e)[:300], "-> still violated")
         return 1
     print("onnxruntime:", got.dtype, got.tolist())
+    if xp.kind == "cumsum":
+        ok = got.dtype == jx.dtype and got.shape == jx.shape and bool((got == jx).all())
+        print("-> ok" if ok else "-> still violated")
+        return 0 if ok else 1
     mx = np.abs(rows.astype(np.float64)).max(axis=1)
     ok = got.dtype == jx.dtype and got.shape == jx.shape and bool(
         (np.abs(got.astype(np.float64) - jx.astype(np.float64)) <= 3.0 * np.spacing((3.0 * mx).astype(np.float32)).astype(np.float64)).all())
     print("-> ok" if ok else "-> still violated")
     return 0 if ok else 1
+
+
+def _replay_dynslice(r):
+    import jax
+    import jax.numpy as jnp
+    from jax2onnx import to_onnx
+    dp = {p_.id: p_ for p_ in dyn_programs("thorough")}[r["id"]]
+    st = np.array(r["start"], dtype=np.int32)
+    jx = np.asarray(dp.fn(jnp.asarray(dp.x), jnp.asarray(st)))
+    model = to_onnx(dp.fn, [jax.ShapeDtypeStruct(dp.xshape, np.int32), jax.ShapeDtypeStruct((len(dp.sizes),), np.int32)])
+    print("nodes:", structure(model))
+    print("start:", st.tolist(), "eager JAX:", jx.tolist())
+    try:
+        got = np.asarray(_ort_run(model, dict(zip([i.name for i in model.graph.input], [dp.x, st]))))
+    except Exception as e:  # noqa: BLE001
+        print("onnxruntime:", str(e)[:300], "-> still violated")
+        return 1
+    print("onnxruntime:", got.tolist())
+    same = got.shape == jx.shape and got.dtype == jx.dtype and bool((got == jx).all())
+    print("-> ok" if same else "-> still violated")
+    return 0 if same else 1
 
 
 def _retree(t):
@@ -3021,6 +3186,8 @@ def replay(path):
         return _replay_program(r)
     if r.get("kind") == "explored":
         return _replay_explored(r)
+    if r.get("kind") == "dynslice":
+        return _replay_dynslice(r)
     ks = {k.name: k for k in _kernels()}
     k, dt = ks[r["kernel"]], r["dtype"]
     cols = []
